@@ -1,7 +1,7 @@
 (* C20 - part 3: effect of promoteExecutables (one account) and of the tail
    of runReorg on the pending view and the pool nonce. *)
 From VF.C20 Require Import Model Lemmas ProofsWF ProofsWF2 ProofsWF3 ProofsCaps ProofsNonce ProofsNonce2.
-From Coq Require Import Arith Lia ZifyBool ZifyN ZifyNat Permutation.
+From Coq Require Import Arith Lia ZifyBool ZifyN ZifyNat Permutation Sorted.
 Local Open Scope N_scope.
 
 Lemma run_from_nonces fuel l next :
@@ -297,4 +297,108 @@ Lemma ni_promote_executables l : forall p, SC p -> NI p -> NI (promote_executabl
 Proof.
   unfold promote_executables. induction l as [|a r IH]; intros p S N; cbn; auto.
   apply IH; [apply sc_promote_account|apply ni_promote_account]; auto.
+Qed.
+
+(* ---- tail of runReorg ------------------------------------------------------- *)
+Lemma sorted_last_max l d t :
+  rev (sort_nonce l) = t :: d -> In t l /\ forall x, In x l -> t_nonce x <= t_nonce t.
+Proof.
+  intro H. assert (Hs : sort_nonce l = rev d ++ [t]).
+  { apply (f_equal (@rev tx)) in H. rewrite rev_involutive in H. cbn in H. auto. }
+  split.
+  - apply sort_nonce_in. rewrite Hs. apply in_or_app. right. left. auto.
+  - intros x Hx. apply sort_nonce_in in Hx. rewrite Hs in Hx. apply in_app_or in Hx as [Hx|[<-|[]]]; [|lia].
+    pose proof (sort_nonce_sorted l) as S. rewrite Hs in S.
+    assert (K : forall (s1 : list tx) y, StronglySorted (fun a b => t_nonce a <= t_nonce b) (s1 ++ [y]) ->
+                forall z, In z s1 -> t_nonce z <= t_nonce y).
+    { induction s1 as [|a r IH]; intros y S1 z Hz; [destruct Hz|]. cbn in S1. inversion S1; subst.
+      destruct Hz as [->|Hz]; [|eapply IH; eauto]. rewrite Forall_forall in H3. apply H3. apply in_or_app. right. left. auto. }
+    eapply K; eauto.
+Qed.
+
+Lemma fix_nonce_effect p a :
+  SC p ->
+  let p' := fix_nonce p a in
+  env_same p p' /\ all p' = all p /\ queue p' = queue p /\ gap_seen p' = gap_seen p /\
+  (forall b, lst (pending p') b = lst (pending p) b) /\
+  (forall b, b <> a -> nc p' b = nc p b) /\
+  (lst (pending p) a = [] -> nc p' a = nc p a) /\
+  (lst (pending p) a <> [] -> exists t, In t (lst (pending p) a) /\ nc p' a = t_nonce t + 1 /\
+                                   forall x, In x (lst (pending p) a) -> t_nonce x <= t_nonce t).
+Proof.
+  intros [W C]. unfold fix_nonce. destruct (aget (pending p) a) as [l|] eqn:G.
+  2:{ cbn zeta. split; [apply env_refl|]. repeat split; auto. unfold lst. rewrite G. congruence. }
+  pose proof (lst_some _ _ _ G) as L.
+  destruct (l_flatten l) as [flat l'] eqn:F.
+  destruct (capok_flatten _ _ _ F (proj1 C _ _ G)) as [_ Hf].
+  destruct (l_flatten_items _ _ _ F) as (I & _).
+  assert (PB : forall b, lst (aset (pending p) a l') b = lst (pending p) b).
+  { intro b. rewrite lst_aset. eqb_cases a b; auto. rewrite I, L. auto. }
+  destruct (rev flat) as [|t d] eqn:Er.
+  - cbn zeta. split; [split; auto|]. repeat split; auto.
+    intro Hne. exfalso. apply Hne. rewrite L.
+    apply (f_equal (@rev tx)) in Er. rewrite rev_involutive in Er. cbn in Er. subst flat.
+    destruct (litems l) as [|y0 ys] eqn:El; auto. exfalso.
+    assert (Hin : In y0 (sort_nonce (y0 :: ys))) by (apply sort_nonce_in; left; auto). rewrite Er in Hin. destruct Hin.
+  - rewrite Hf in Er. destruct (sorted_last_max _ _ _ Er) as [Tin Tmax].
+    cbn zeta. split; [split; auto|]. split; auto. split; auto. split; auto. split; [exact PB|].
+    unfold nc. cbn [pnonces set_pnonces set_pending]. split; [|split].
+    + intros b Hb. rewrite nc_get_set. assert (E : N.eqb a b = false) by (apply N.eqb_neq; congruence). rewrite E. auto.
+    + rewrite L. intro E. rewrite E in Tin. destruct Tin.
+    + intros _. exists t. rewrite L. split; auto. rewrite nc_get_set, N.eqb_refl. split; auto.
+Qed.
+
+Lemma ni_fix_nonce p a : SC p -> NI p -> NI (fix_nonce p a).
+Proof.
+  intros S [V G N A]. pose proof (proj1 (proj1 S)) as W.
+  destruct (fix_nonce_effect p a S) as (E & Ea & _ & _ & Pb & Nb & Nnil & Nne).
+  set (p' := fix_nonce p a) in *.
+  assert (Esn : forall b, sn p' b = sn p b) by (intro b; unfold sn; destruct E as [-> _]; auto).
+  assert (Epn : forall b m, pn p' b m <-> pn p b m) by (intros b m; unfold pn; rewrite Pb; tauto).
+  constructor.
+  - intros x Hx. rewrite Ea in Hx. eapply okv_env; eauto.
+  - intros b t m Ht Hm. rewrite Pb in Ht. rewrite Esn in Hm. apply Epn. eapply G; eauto.
+  - intros b m Hm. rewrite Esn in Hm. apply Epn. destruct (N.eq_dec b a) as [->|Hb].
+    + destruct (lst (pending p) a) as [|x0 xs] eqn:El.
+      * rewrite (Nnil eq_refl) in Hm. apply N. auto.
+      * destruct Nne as (t & Tin & Tn & Tmax); [congruence|]. rewrite Tn in Hm.
+        destruct (N.eq_dec m (t_nonce t)) as [->|Hd]; [exists t; rewrite El; auto|].
+        rewrite <- El in Tin. eapply G; eauto. lia.
+    + rewrite (Nb b Hb) in Hm. apply N. auto.
+  - intros b Hm. rewrite Esn in *. destruct (N.eq_dec b a) as [->|Hb].
+    + destruct (lst (pending p) a) as [|x0 xs] eqn:El.
+      * rewrite (Nnil eq_refl) in Hm. destruct (A a Hm) as (x & Hx & En & Ok). rewrite El in Hx. destruct Hx.
+      * destruct Nne as (t & Tin & Tn & Tmax); [congruence|]. rewrite <- El in *.
+        assert (Ot : okv p t) by (apply V; eapply (w_pall _ _ W); eauto).
+        assert (Ft : t_from t = a) by (eapply (w_pfrom _ _ W); eauto).
+        assert (Hs : sn p a <= t_nonce t) by (destruct Ot as [Ot _]; rewrite Ft in Ot; auto).
+        destruct (N.eq_dec (sn p a) (t_nonce t)) as [Ee|Ee].
+        -- exists t. rewrite Pb. split; [auto|split; [auto|eapply okv_env; eauto]].
+        -- destruct (G a t (sn p a) Tin) as (x & Hx & En); [lia|]. exists x. rewrite Pb.
+           split; [auto|split; [auto|]]. eapply okv_env; eauto. apply V. eapply (w_pall _ _ W); eauto.
+    + rewrite (Nb b Hb) in Hm. destruct (A b Hm) as (x & Hx & En & Ok). exists x. rewrite Pb.
+      split; [auto|split; [auto|eapply okv_env; eauto]].
+Qed.
+
+Lemma ni_fold_fix l : forall p, SC p -> NI p -> NI (fold_left fix_nonce l p).
+Proof.
+  induction l as [|a r IH]; intros p S N; cbn; auto.
+  apply IH; [apply sc_fix_nonce|apply ni_fix_nonce]; auto.
+Qed.
+
+(* ---- runReorg without a reset, and the ops built from cuts ----------------- *)
+Lemma ni_wc p p' : WS p -> WC p p' -> NI p -> NI p'.
+Proof. intros W [_ C] N. eapply ni_cut; eauto. apply W. Qed.
+
+Lemma ni_run_reorg_noreset p dirty ord : SC p -> NI p -> NI (run_reorg p None dirty ord).
+Proof.
+  intros S N. unfold run_reorg.
+  set (addrs := match dirty with Some d => order_by ord d | None => [] end).
+  assert (S1 : SC (promote_executables p addrs)) by (apply sc_promote_executables; auto).
+  assert (N1 : NI (promote_executables p addrs)) by (apply ni_promote_executables; auto).
+  assert (S2 : SC (truncate_pending (promote_executables p addrs) ord)) by (apply sc_truncate_pending; auto).
+  assert (N2 : NI (truncate_pending (promote_executables p addrs) ord)).
+  { eapply ni_wc; [| |exact N1]; [apply S1|apply wc_truncate_pending; apply S1]. }
+  apply ni_fold_fix; [apply sc_truncate_queue; auto|].
+  eapply ni_wc; [| |exact N2]; [apply S2|apply wc_truncate_queue; apply S2].
 Qed.
